@@ -189,10 +189,12 @@ func (fileEngine) Gen(rng *rand.Rand, tier string, i int) any {
 			if rng.Intn(3) == 0 {
 				c.Steps = append(c.Steps, "bad:"+badClasses[rng.Intn(len(badClasses))])
 			} else {
-				c.Steps = append(c.Steps, "good")
+				// written in place, or installed by renaming a new file over the name (what editors,
+				// sed -i and deployment tools do), with or without a backup link to the old file
+				c.Steps = append(c.Steps, []string{"good", "good", "good:rename", "good:rename-keep"}[rng.Intn(4)])
 			}
 		}
-		c.Steps = append(c.Steps, "good")
+		c.Steps = append(c.Steps, []string{"good", "good:rename", "good:rename-keep"}[rng.Intn(3)], "good")
 	default:
 		c.Kind = "dual"
 		c.Macs = 2 + rng.Intn(4)
@@ -506,12 +508,12 @@ func runFileRefresh(ctx *fw.Ctx, c *fileCase) {
 	}
 	next := 12
 	for _, st := range c.Steps {
-		if next > 19 {
+		if next > 24 {
 			break
 		}
-		if st == "good" {
+		if strings.HasPrefix(st, "good") {
 			r := req(0, xid)
-			r.Write = &FileWrite{Name: "leases.txt", Content: versionFile(v6, c.Macs, next, "")}
+			r.Write = &FileWrite{Name: "leases.txt", Content: versionFile(v6, c.Macs, next, ""), Rename: strings.HasPrefix(st, "good:rename"), KeepOld: st == "good:rename-keep"}
 			r.Poll = &PollSpec{Until: hex.EncodeToString(versionAddr(v6, next, 0)), MaxPolls: 200, IntervalMs: 50}
 			add(r, exp{kind: "progress", ver: next, prev: cur, mac: 0})
 			// re-arm once: rewrite the same content and give it the other half of the bound
@@ -543,7 +545,7 @@ func runFileRefresh(ctx *fw.Ctx, c *fileCase) {
 	// finally: a large well-formed version and, right behind it, a small newer one. Whatever the refresh
 	// machinery does in between, it must end on the newer one and must not go back to the large one.
 	bigSmall := -1
-	for rep := 0; rep < 2 && next <= 17; rep++ {
+	for rep := 0; rep < 2 && next <= 22; rep++ {
 		var sb strings.Builder
 		for i := 0; i < c.Macs; i++ {
 			fmt.Fprintf(&sb, "%s %s\n", net.HardwareAddr(refreshMac(i)), versionAddr(v6, next, i))
@@ -643,6 +645,9 @@ func runFileRefresh(ctx *fw.Ctx, c *fileCase) {
 		switch e.kind {
 		case "progress":
 			ctx.Count("file.refresh.good_rewrites", 1)
+			if r.Matched && i < len(j.Reqs) && j.Reqs[i].Write != nil && j.Reqs[i].Write.Rename {
+				ctx.Count("file.refresh.good_replaced_by_rename", 1)
+			}
 			if r.Matched {
 				ctx.Count("file.refresh.polls_until_served", int64(r.Polls))
 			} else {
@@ -655,7 +660,7 @@ func runFileRefresh(ctx *fw.Ctx, c *fileCase) {
 				if r.Matched {
 					how = "was only served after the file was written a second time"
 				}
-				ctx.Viol("C10", "update-not-served", "%s: well-formed version %d was written in place; after %d polls over >= 10 s the server still served %v; it %s", desc, e.ver, 200, seen, how)
+				ctx.Viol("C10", "update-not-served", "%s: well-formed version %d was installed; after %d polls over >= 10 s the server still served %v; it %s", desc, e.ver, 200, seen, how)
 				return
 			}
 		case "progress-other":
